@@ -15,8 +15,8 @@ DEVS = '{"RgPt", "BwRev", "BwOrigin", "WrapSlice"}'
 # and the rounds per tier: (family, kinds, host lengths, stride, design-checked?)
 # stride 1 = the stated finite space is enumerated completely; stride k = a
 # seeded 1/k sample of it (offset = VERIF_SEED mod k).
-def R(family, kinds, Ls, stride, mc=True):
-    return dict(family=family, kinds=kinds, Ls=Ls, stride=stride, mc=mc)
+def R(family, kinds, Ls, stride, mc=True, purelen=1):
+    return dict(family=family, kinds=kinds, Ls=Ls, stride=stride, mc=mc, purelen=purelen)
 
 
 PROPS = {
@@ -44,6 +44,11 @@ PROPS = {
                "thorough": [R("edit", ["reverse", "complement", "revcomp"], [3, 4, 5], 1),
                             R("edit", ["reverse", "complement", "revcomp"], [6], 1),
                             R("edit", ["reverse", "complement", "revcomp"], [7], 1, False)]}),
+    "C11": dict(
+        owns=lambda kind, op, rule: rule in ("mutated", "probe-panic", "law-raw", "identity"),
+        tiers={"quick": [R("pure", [], [6], 1, purelen=1), R("pure", [], [6], 3, purelen=2)],
+               "thorough": [R("pure", [], [6], 1, purelen=2), R("pure", [], [6], 8, mc=False, purelen=3),
+                            R("pure", [], [6], 160, mc=False, purelen=4)]}),
     "C10": dict(
         owns=lambda kind, op, rule: rule not in ("order", "extract") and (kind == "cuts" or op in ("delete", "law")),
         tiers={"quick": [R("edit", ["insert", "embed"], [4], 1), R("cuts", [], [4, 5], 1),
@@ -54,7 +59,7 @@ PROPS = {
 }
 
 
-def cfg_text(Ls, family, kinds, stride, offset, invariant, chunk=40, maxguest=2):
+def cfg_text(Ls, family, kinds, stride, offset, invariant, chunk=40, maxguest=2, purelen=1):
     return """SPECIFICATION Spec
 CONSTANTS
   Ls = {%s}
@@ -64,11 +69,12 @@ CONSTANTS
   Stride = %d
   Offset = %d
   MaxGuest = %d
+  PureLen = %d
   Devs = %s
 %s
 CHECK_DEADLOCK FALSE
 """ % (", ".join(str(x) for x in Ls), family, ", ".join('"%s"' % k for k in kinds), chunk, stride,
-       offset, maxguest, DEVS, "INVARIANT DesignOK" if invariant else "")
+       offset, maxguest, purelen, DEVS, "INVARIANT DesignOK" if invariant else "")
 
 
 TRACE_CFG = """SPECIFICATION TSpec
@@ -133,7 +139,7 @@ def run(prop, tier, seed, replay=None):
                 stride = rnd["stride"]
                 offset = seed % stride if stride > 1 else 0
                 if rnd["mc"]:
-                    rc, out, dt = run_tlc(work, "MC_Seq", cfg_text(rnd["Ls"], family, kinds, stride, offset, True),
+                    rc, out, dt = run_tlc(work, "MC_Seq", cfg_text(rnd["Ls"], family, kinds, stride, offset, True, purelen=rnd["purelen"]),
                                           workers=NCPU, timeout=3000, extra=["-continue"], heap="12g")
                     bad = tlc_failed(out)
                     if "UNEXPLAINED" in out or bad or rc not in (0,):
@@ -144,7 +150,7 @@ def run(prop, tier, seed, replay=None):
                     mc_states += s
                     mc_trans += t
                 cases = work.path("cases-%s-%s-%s.ndjson" % (family, "_".join(map(str, rnd["Ls"])), stride))
-                rc, out, dt = run_tlc(work, "MC_Seq", cfg_text(rnd["Ls"], family, kinds, stride, offset, False),
+                rc, out, dt = run_tlc(work, "MC_Seq", cfg_text(rnd["Ls"], family, kinds, stride, offset, False, purelen=rnd["purelen"]),
                                       env={"CASES": cases}, workers=1, timeout=3000, heap="8g")
                 if rc != 0 or tlc_failed(out) or not os.path.exists(cases):
                     raise Undecided("case generation failed:\n" + out[-3000:])
